@@ -201,6 +201,23 @@ def ob_escapes(kind, n):
     return h
 
 
+def ob_two_parses():
+    """TWO files parsed one after the other in one process (what `meson format -r`, the rewriter and every subdir() do): the second file round-trips byte for
+    byte whatever the first one started with - leading comment, blank line, indentation (a symbolic prefix) - nothing of the first parse survives in the second"""
+    def h():
+        pre = sym_str(choose(3, 'prefix length'), 'p', alphabet='# \n\ta')
+        first = pre + "x = 1\n"
+        try:
+            a1 = mp.Parser(first, 'a').parse()
+            r1 = RawPrinter(); a1.accept(r1)
+            check(len(r1.result) == len(first) and decide(bt_any(eq(r1.result, first))), 'the first file is reproduced byte for byte')
+        except mp.ParseException:
+            cover('first-rejected')
+        second = ['srcs = files(\'a.c\')\n', '\n# c\ny = f(1)\n', 'y = [1, 2]'][choose(3, 'second file')]
+        check_text(second, 'accept')
+    return h
+
+
 def obligations(tier):
     q = tier == 'quick'
     out = []
@@ -219,5 +236,6 @@ def obligations(tier):
     for n in ((2, 4, 8) if q else (2, 4, 8, 9)):
         out.append(Obligation('escapes[U,%d]' % n, ob_escapes('U', n), dict(literal="'...' | f'...'", body='0-1 of {a, \\} + \\ + one of U u x + %d characters over 0 1 F f g' % n, context='assignment | call argument'),
                               labels=('accept', 'parse-reject') if n >= 8 else ('accept',), max_paths=8000000))
+    out.append(Obligation('two-parses', ob_two_parses(), dict(first='0-2 symbolic characters over # space newline tab a, then a statement', second='3 concrete files', order='first then second, in one process'), labels=('accept',), optional_labels=('first-rejected', 'extent'), max_paths=1000000))
     out.append(Obligation('two-strings', ob_two_strings(), dict(literals=2, kinds="''' f''' ' f'", body='<=2 over {a, newline, space}', between='newline | comma | blank line'), labels=('accept', 'extent'), max_paths=8000000))
     return out
